@@ -150,6 +150,9 @@ def make_case(rng):
     elif cls == "env_names":
         names = rng.choice([[], ["default"], ["a", "default"], ["default", "b"]]) if faulty else rng.choice([["a"], ["", "b"], ["x", "y", "z"], ["Default"]])
         case["names"] = names
+        # the collection comes as a list, a tuple or an array of strings, through the constructor or through the setter
+        case["container"] = rng.choice(["list", "tuple", "tuple", "array"])
+        case["via_setter"] = rng.random() < 0.5
     elif cls == "grid_pos":
         w, h, dd = rng.randint(1, 3), rng.randint(1, 3), rng.randint(1, 2)
         size = w * h * dd
@@ -258,7 +261,15 @@ def observe(case):
             return run(lambda: tr.get_sample_index("1 s", val))
         return run(lambda: strengths.RDScript(system=system, t_sample=[0, 1], init_state_processing=val))
     if cls == "env_names":
-        return run(lambda: strengths.RDNetwork(species=[strengths.Species("A")], reactions=[], environments=list(case["names"])))
+        names = list(case["names"])
+        coll = {"list": names, "tuple": tuple(names), "array": (np.array(names, dtype=object) if names else tuple(names))}[case.get("container", "list")]
+        if case.get("via_setter"):
+            net = strengths.RDNetwork(species=[strengths.Species("A")], reactions=[])
+
+            def f():
+                net.environments = coll
+            return run(f)
+        return run(lambda: strengths.RDNetwork(species=[strengths.Species("A")], reactions=[], environments=coll))
     if cls in ("grid_pos", "graph_pos", "species_ref"):
         if cls == "graph_pos":
             from strengths.rdspace import RDGraphSpaceNode
